@@ -2,15 +2,30 @@
 //!
 //! Monitors (DESIGN.md C19):
 //!  * relational two-run non-interference: two Nexus instances S1, S2 built by the same script
-//!    that differ only in what a restricted principal p certainly may not read (content of
-//!    elements classified above p's ceiling; additional such elements appended at the end); every
-//!    query of a battery gives p byte-identical responses on S1 and S2 (after masking wall-clock
-//!    noise established by building S1 twice); the owner must see a difference (non-trivial);
+//!    with the SAME number of commits (S1 is padded with updates of an element hidden in both, so
+//!    every Space sequence / tx id / snapshot coordinate is compared exactly) that differ in ONE of
+//!    two things per configuration: (mode hidden_elements) the content of elements p certainly may
+//!    not read and additional such elements appended at the end - hidden by `secret`, by the label
+//!    one step above p's ceiling, by an unknown label, or by no label under a `public` ceiling; or
+//!    (mode masked_fields) attributes / facets / stance / confidence of READABLE elements where
+//!    every authority of p masks that field. Every query of a battery gives p byte-identical
+//!    responses on S1 and S2 (wall-clock instants and digests over them masked; established by
+//!    building S1 twice); the owner must see a difference (non-trivial);
+//!    plus, per store: `SEARCH .. LIMIT k` is a prefix of `SEARCH .. LIMIT 100` ("not paged over"),
+//!    and a command family whose permission p does not hold (search / read_history / export /
+//!    project) is refused;
 //!  * authority timeline: after a revocation / suspension / expiry / explicit deny, p's next
-//!    request equals that of a fresh principal which only ever held what p still holds;
-//!    delegation: whatever is denied to the delegator now is denied to the delegate now;
+//!    request equals that of a fresh principal which only ever held what p still holds, and a
+//!    principal holding nothing is refused every FIND/SEARCH/HISTORY/CHANGES/EXPORT/PREVIEW;
+//!    delegation: whatever is denied to the delegator now is denied to the delegate now, and the
+//!    delegate sees no element id the delegator does not see;
 //!  * no self-escalation: no KML/KQL/META command of any session changes a gov_* collection
-//!    (audit may gain rows), a Space's governance columns or an existing element's governance block.
+//!    (audit may gain rows), a Space's governance columns or an existing element's governance
+//!    block; no session without write authority gets a mutation executed; a writer whose ceiling is
+//!    `internal` changes no element classified `secret` (per-element authorization of targets).
+//!
+//! Known findings (A2, listed in known_findings.json): SEARCH scores / order of visible hits
+//! depend on unreadable documents (global BM25 statistics), SEARCH matches on masked fields.
 
 use anda_cognitive_nexus::{
     CognitiveNexus, ElementId,
@@ -109,6 +124,8 @@ struct World {
     base_seq: u64,
     /// Space sequence before the first step of the script
     start_seq: u64,
+    /// how the hidden elements are hidden in this instance
+    hidden_as: HiddenAs,
 }
 
 /// What S1 and S2 differ in. One kind of difference per configuration, so that an alarm names
@@ -172,6 +189,19 @@ async fn run_steps(w: &mut World, script: &Script, steps: &[Step], variant: usiz
                 }
             }
             Step::Classify { sym, label } => {
+                let label: &str = if *label == HIDDEN_LABEL {
+                    match &w.hidden_as {
+                        HiddenAs::Label(l) => l.as_str(),
+                        HiddenAs::Unlabeled => {
+                            // no label at all; a padding commit keeps "one step = one commit"
+                            let n = space_seq(&w.nx).await?;
+                            exec_ok(&owner, "UPDATE :t SET ATTRIBUTES {rank: :rank}", &json!({"t": w.id(PAD), "rank": n})).await?;
+                            continue;
+                        }
+                    }
+                } else {
+                    label
+                };
                 owner
                     .classify(DEFAULT_SPACE, element_id(&w.id(sym))?, label)
                     .await
@@ -180,6 +210,19 @@ async fn run_steps(w: &mut World, script: &Script, steps: &[Step], variant: usiz
         }
     }
     Ok(())
+}
+
+/// Placeholder label of the classify steps that hide an element: resolved per instance to
+/// `World::hidden_label` (a label p's authority certainly does not reach).
+const HIDDEN_LABEL: &str = "<hidden>";
+
+/// How an instance hides its hidden elements.
+#[derive(Clone, Debug, PartialEq)]
+enum HiddenAs {
+    /// classified with this label
+    Label(String),
+    /// left unlabeled: the Space default (`internal`) applies, which a `public` ceiling does not reach
+    Unlabeled,
 }
 
 /// Symbol of the always-present hidden element used for commit-count padding.
@@ -245,7 +288,7 @@ fn gen_script(rng: &mut Rng, size: usize) -> Script {
         });
         if hidden {
             s.hidden_creations.push((s.steps.len() - 1, "concept"));
-            s.steps.push(Step::Classify { sym: sym.clone(), label: "secret" });
+            s.steps.push(Step::Classify { sym: sym.clone(), label: HIDDEN_LABEL });
             s.hidden.insert(sym.clone());
         } else {
             let l = *rng.pick(&LABELS_VISIBLE);
@@ -273,7 +316,7 @@ fn gen_script(rng: &mut Rng, size: usize) -> Script {
         });
         if hidden {
             s.hidden_creations.push((s.steps.len() - 1, "evidence"));
-            s.steps.push(Step::Classify { sym: sym.clone(), label: "secret" });
+            s.steps.push(Step::Classify { sym: sym.clone(), label: HIDDEN_LABEL });
             s.hidden.insert(sym.clone());
         } else {
             s.visible.push(sym.clone());
@@ -336,7 +379,7 @@ fn gen_script(rng: &mut Rng, size: usize) -> Script {
         s.steps.push(Step::Kml { cmd, params, binds });
         // a proposition is hidden when explicitly classified; endpoints may be hidden independently
         if rng.chance(1, 4) {
-            s.steps.push(Step::Classify { sym: psym.clone(), label: "secret" });
+            s.steps.push(Step::Classify { sym: psym.clone(), label: HIDDEN_LABEL });
             s.hidden.insert(psym.clone());
         } else {
             s.visible.push(psym.clone());
@@ -344,7 +387,7 @@ fn gen_script(rng: &mut Rng, size: usize) -> Script {
         s.props.push(psym);
         for (asym, h) in new_as {
             if h {
-                s.steps.push(Step::Classify { sym: asym.clone(), label: "secret" });
+                s.steps.push(Step::Classify { sym: asym.clone(), label: HIDDEN_LABEL });
                 s.hidden.insert(asym.clone());
             }
             // an assertion that is not explicitly hidden may still inherit a classification from
@@ -374,7 +417,7 @@ fn gen_script(rng: &mut Rng, size: usize) -> Script {
             params: vec![("name".into(), PVal::Lit(json!(two_words(rng)))), ("rank".into(), PVal::Lit(json!(rng.below(100))))],
             binds: vec![("c".into(), sym.clone())],
         });
-        s.tail.push(Step::Classify { sym: sym.clone(), label: "secret" });
+        s.tail.push(Step::Classify { sym: sym.clone(), label: HIDDEN_LABEL });
         let other = if rng.bool() { rng.pick(&s.persons).clone() } else { sym.clone() };
         let (subj, obj) = if rng.bool() { (sym.clone(), other) } else { (other, sym.clone()) };
         let pred = *rng.pick(&["prefers", "mentions"]);
@@ -383,7 +426,7 @@ fn gen_script(rng: &mut Rng, size: usize) -> Script {
             params: vec![("s".into(), PVal::Ref(subj)), ("o".into(), PVal::Ref(obj))],
             binds: vec![("p".into(), format!("tail_prop{i}"))],
         });
-        s.tail.push(Step::Classify { sym: format!("tail_prop{i}"), label: "secret" });
+        s.tail.push(Step::Classify { sym: format!("tail_prop{i}"), label: HIDDEN_LABEL });
         // a hidden assertion about a VISIBLE proposition (must not move p's belief) or the new one
         let about = if rng.bool() && !s.props.is_empty() { rng.pick(&s.props).clone() } else { format!("tail_prop{i}") };
         s.tail.push(Step::Kml {
@@ -391,7 +434,7 @@ fn gen_script(rng: &mut Rng, size: usize) -> Script {
             params: vec![("p".into(), PVal::Ref(about)), ("actor".into(), PVal::Ref(sym.clone()))],
             binds: vec![("a".into(), format!("tail_assertion{i}"))],
         });
-        s.tail.push(Step::Classify { sym: format!("tail_assertion{i}"), label: "secret" });
+        s.tail.push(Step::Classify { sym: format!("tail_assertion{i}"), label: HIDDEN_LABEL });
         // and a lifecycle event on something hidden
         let victim = *rng.pick(&["tail_person", "tail_assertion"]);
         match rng.below(5) {
@@ -415,7 +458,7 @@ fn gen_script(rng: &mut Rng, size: usize) -> Script {
                     params: vec![("name".into(), PVal::Lit(json!(format!("{word} {word}"))))],
                     binds: vec![("c".into(), sym.clone())],
                 });
-                s.tail.push(Step::Classify { sym, label: "secret" });
+                s.tail.push(Step::Classify { sym, label: HIDDEN_LABEL });
             }
             s.crowd_word = Some(word);
         }
@@ -696,7 +739,7 @@ async fn space_seq(nx: &CognitiveNexus) -> Result<u64, String> {
 /// Builds one instance: governance first (so that ids of governance rows coincide), then the
 /// population. `variant` selects the column of the values that differ; `mode` says which values
 /// those are; `tail` appends the extra hidden elements (mode HiddenElements only).
-async fn build(name: &str, script: &Script, cfg: &GovCfg, variant: usize, tail: bool, mode: Mode) -> Result<(World, Installed, Vec<PolicyStatement>), String> {
+async fn build(name: &str, script: &Script, cfg: &GovCfg, variant: usize, tail: bool, mode: Mode, hidden_as: &HiddenAs) -> Result<(World, Installed, Vec<PolicyStatement>), String> {
     let nx = fresh_nexus(name).await?;
     let (inst, policy) = configure(&nx, cfg).await?;
     let masked_mode = mode == Mode::MaskedFields;
@@ -710,6 +753,7 @@ async fn build(name: &str, script: &Script, cfg: &GovCfg, variant: usize, tail: 
         vary_confidence: masked_mode && masks(cfg, "confidence"),
         base_seq: 0,
         start_seq: 0,
+        hidden_as: hidden_as.clone(),
     };
     w.start_seq = space_seq(&w.nx).await?;
     run_steps(&mut w, script, &script.steps, variant).await?;
@@ -1246,14 +1290,29 @@ fn ni_case(case: u64, rng: &mut Rng, st: &mut Stats, thorough: bool) {
     } else {
         Mode::HiddenElements
     };
+    // how the hidden elements are hidden: at the top of the ladder, exactly one step above p's
+    // ceiling, under a label the engine does not know (ranks above every known one), or - under a
+    // `public` ceiling - not labelled at all (the Space default `internal` applies, never `public`)
+    if case % 8 == 7 {
+        cfg.ceiling = "public";
+    }
+    let ladder = ["public", "internal", "private", "sensitive", "secret"];
+    let above = ladder[ladder.iter().position(|l| *l == cfg.ceiling).unwrap_or(3) + 1];
+    let hidden_as = match case % 4 {
+        0 => HiddenAs::Label("secret".into()),
+        1 => HiddenAs::Label(above.into()),
+        2 => HiddenAs::Label("compartment-x".into()),
+        _ if cfg.ceiling == "public" => HiddenAs::Unlabeled,
+        _ => HiddenAs::Label(above.into()),
+    };
     let bat = battery(rng, &script);
     let mut search_terms: Vec<String> = (0..2).map(|_| rng.pick(&WORDS).to_string()).collect();
     if let Some(w) = &script.crowd_word {
         search_terms.push(w.clone());
     }
     let res: Result<(), String> = vcore::run::block_on(async {
-        let (w1, _, _) = build(&format!("c19_{case}"), &script, &cfg, 0, false, mode).await?;
-        let (w2, _, _) = build(&format!("c19_{case}"), &script, &cfg, 1, true, mode).await?;
+        let (w1, _, _) = build(&format!("c19_{case}"), &script, &cfg, 0, false, mode, &hidden_as).await?;
+        let (w2, _, _) = build(&format!("c19_{case}"), &script, &cfg, 1, true, mode, &hidden_as).await?;
         // the same number of commits in both
         let target = space_seq(&w2.nx).await?;
         let padded = pad_to(&w1, target).await?;
@@ -1266,6 +1325,12 @@ fn ni_case(case: u64, rng: &mut Rng, st: &mut Stats, thorough: bool) {
         let (o1, o2) = (w1.nx.system_session(), w2.nx.system_session());
         st.count("configurations");
         st.count(&format!("configurations_{}", mode.tag()));
+        st.count(&format!("hidden_as_{}", match &hidden_as {
+            HiddenAs::Label(l) if l == "secret" => "secret",
+            HiddenAs::Label(l) if l == "compartment-x" => "unknown_label",
+            HiddenAs::Label(_) => "one_step_above_the_ceiling",
+            HiddenAs::Unlabeled => "unlabeled_under_a_public_ceiling",
+        }));
         st.count(&format!("config_path_{}", cfg.path));
         let mut nontrivial = false;
         let mut allowed_some = false;
@@ -1315,7 +1380,7 @@ fn ni_case(case: u64, rng: &mut Rng, st: &mut Stats, thorough: bool) {
             if judged && a1 != a2 {
                 // is it noise? build S1 once more and look at the same query
                 if w1b.is_none() {
-                    let wb = build(&format!("c19_{case}"), &script, &cfg, 0, false, mode).await?.0;
+                    let wb = build(&format!("c19_{case}"), &script, &cfg, 0, false, mode, &hidden_as).await?.0;
                     pad_to(&wb, target).await?;
                     w1b = Some(wb);
                 }
@@ -1367,6 +1432,7 @@ fn ni_case(case: u64, rng: &mut Rng, st: &mut Stats, thorough: bool) {
                         "first_difference(S1|S2)": first_diff(&a1, &a2, "$"),
                         "first_difference_ignoring_scores": first_diff(&mask_keys(&a1, &["score"]), &mask_keys(&a2, &["score"]), "$"),
                         "hidden_ids": script.hidden.iter().map(|s| w1.id(s)).collect::<Vec<_>>(),
+                        "hidden_as": format!("{hidden_as:?}"),
                         "space_seq(S1|S2)": [space_seq(&w1.nx).await.unwrap_or(0), space_seq(&w2.nx).await.unwrap_or(0)],
                         "base_seq": w1.base_seq,
                         "s2_only_tail": if mode == Mode::HiddenElements { script.tail.iter().map(|t| match t {
@@ -1405,7 +1471,7 @@ fn ni_case(case: u64, rng: &mut Rng, st: &mut Stats, thorough: bool) {
         }
         if w1b.is_none() && case % 4 == 0 {
             // establish the mask on a share of the configurations even when nothing differed
-            let wb = build(&format!("c19_{case}"), &script, &cfg, 0, false, mode).await?.0;
+            let wb = build(&format!("c19_{case}"), &script, &cfg, 0, false, mode, &hidden_as).await?.0;
             pad_to(&wb, target).await?;
             let sb = session(&wb.nx, P);
             let ob = wb.nx.system_session();
@@ -1463,7 +1529,7 @@ fn timeline_case(case: u64, rng: &mut Rng, st: &mut Stats) {
         let nx = fresh_nexus(&format!("c19_tl_{case}")).await?;
         let gov = nx.governance();
         let mut policy = vec![];
-        let mut w = World { nx: nx.clone(), sym: BTreeMap::new(), vary_hidden: false, vary_attrs: false, vary_facets: false, vary_stance: false, vary_confidence: false, base_seq: 0, start_seq: 0 };
+        let mut w = World { nx: nx.clone(), sym: BTreeMap::new(), vary_hidden: false, vary_attrs: false, vary_facets: false, vary_stance: false, vary_confidence: false, base_seq: 0, start_seq: 0, hidden_as: HiddenAs::Label("secret".into()) };
         run_steps(&mut w, &script, &script.steps, 0).await?;
         // p's authority; for "expiry" the root grant lapses a few milliseconds from now
         let inst = if event == "expiry" {
@@ -1653,7 +1719,7 @@ fn delegation_case(case: u64, rng: &mut Rng, st: &mut Stats) {
     let res: Result<(), String> = vcore::run::block_on(async {
         let nx = fresh_nexus(&format!("c19_dg_{case}")).await?;
         let gov = nx.governance();
-        let mut w = World { nx: nx.clone(), sym: BTreeMap::new(), vary_hidden: false, vary_attrs: false, vary_facets: false, vary_stance: false, vary_confidence: false, base_seq: 0, start_seq: 0 };
+        let mut w = World { nx: nx.clone(), sym: BTreeMap::new(), vary_hidden: false, vary_attrs: false, vary_facets: false, vary_stance: false, vary_confidence: false, base_seq: 0, start_seq: 0, hidden_as: HiddenAs::Label("secret".into()) };
         run_steps(&mut w, &script, &script.steps, 0).await?;
         let mut none = vec![];
         let inst = install(&nx, &cfg, P, "", &mut none).await?;
@@ -1944,7 +2010,7 @@ fn escalation_case(case: u64, rng: &mut Rng, st: &mut Stats) {
     let cfg = gen_cfg(rng);
     let atts = attempts(rng, &script);
     let res: Result<(), String> = vcore::run::block_on(async {
-        let (w, _, _) = build(&format!("c19_esc_{case}"), &script, &cfg, 0, true, Mode::HiddenElements).await?;
+        let (w, _, _) = build(&format!("c19_esc_{case}"), &script, &cfg, 0, true, Mode::HiddenElements, &HiddenAs::Label("secret".into())).await?;
         let nx = &w.nx;
         let gov = nx.governance();
         // a writer holding every cognitive / maintenance / lifecycle permission, and nothing of
@@ -2081,6 +2147,10 @@ fn main() {
         // non-interference
         ("configurations_hidden_elements", f(24)),
         ("configurations_masked_fields", f(12)),
+        ("hidden_as_secret", f(8)),
+        ("hidden_as_one_step_above_the_ceiling", f(8)),
+        ("hidden_as_unknown_label", f(8)),
+        ("hidden_as_unlabeled_under_a_public_ceiling", f(4)),
         ("nontrivial_configurations", f(40)),
         ("ni_pairs_p_answered_and_owner_sees_difference", f(800)),
         ("ni_decisive_pairs_mode_masked_fields", f(80)),
